@@ -201,6 +201,18 @@ func runProperty(p *Property, opts *Options, replay bool) int {
 			problems = append(problems, fmt.Sprintf("%s/%s: counterexample did not reproduce natively (%s) — engine or stub mismatch, see %s", v.Harness, v.Label, v.Replay, dir))
 		}
 	}
+	// translator validation on sampled witness instances (only meaningful when no violation was found)
+	if replay && rc == 0 {
+		byPkg := map[string][]*Violation{}
+		for _, R := range results {
+			byPkg[R.Spec.Pkg] = append(byPkg[R.Spec.Pkg], R.Witnesses...)
+		}
+		for pkg, ws := range byPkg {
+			n, probs := validateWitnesses(pkg, ws, specs)
+			replays += n
+			problems = append(problems, probs...)
+		}
+	}
 	for _, k := range opts.known {
 		id := k.Harness + "/" + k.Label
 		if knownHits[id] {
